@@ -185,6 +185,44 @@ Fixpoint depth_after (d : Z) (toks : list tok) : option Z :=
 Definition balanced (toks : list tok) : bool :=
   match depth_after 0 toks with Some 0 => true | _ => false end.
 
+(* the same on the characters of a string: '[' opens, ']' closes, everything else is ignored *)
+Fixpoint char_depth (d : Z) (s : str) : option Z :=
+  match s with
+  | [] => Some d
+  | c :: r =>
+      if c =? ch_open then char_depth (d + 1) r
+      else if c =? ch_close then (if d - 1 <? 0 then None else char_depth (d - 1) r)
+      else char_depth d r
+  end.
+Definition brackets_balanced (s : str) : bool :=
+  match char_depth 0 s with Some 0 => true | _ => false end.
+
+(* the characters tokens are made of *)
+Definition atom_char (c : Z) : bool :=
+  is_digit c || is_note_letter c || (c =? ch_sharp) || (c =? ch_minus) || (c =? ch_dot).
+Definition token_char (c : Z) : bool := atom_char c || (c =? ch_open) || (c =? ch_close).
+
+(** * Whitespace between the tokens of a formatted sequence *)
+Definition is_bracket_text (t : str) : bool := str_eqb t [ch_open] || str_eqb t [ch_close].
+(* two tokens may touch when one of them is a bracket or the second starts with a minus sign *)
+Definition may_touch (t t' : str) : bool :=
+  is_bracket_text t ||
+  match t' with c :: _ => (c =? ch_open) || (c =? ch_close) || (c =? ch_minus) | [] => false end.
+Fixpoint seps_ok (texts seps : list str) : bool :=
+  match texts with
+  | [] => true
+  | t :: ts =>
+      let sep := hd [] seps in
+      forallb is_space sep
+      && match sep, ts with [], t' :: _ => may_touch t t' | _, _ => true end
+      && seps_ok ts (tl seps)
+  end.
+
+(* \w and whitespace are disjoint (true of Unicode; for ASCII it is computed, for the rest it is a
+   hypothesis on the environment parameter) *)
+Definition space_not_word (uw : Z -> bool) : Prop := forall c, 128 <= c -> is_space c = true -> uw c = false.
+
+
 (** boolean equality of trees (for the correspondence terms) *)
 Fixpoint tree_eqb (a b : tree) : bool :=
   match a, b with
